@@ -13,6 +13,7 @@ import PrimaiteModel.Model.FileSystemLoader
 import PrimaiteModel.Lemmas.FileSystemOps
 import PrimaiteModel.Props.C15Api
 import PrimaiteModel.Props.C15Health
+import PrimaiteModel.Lemmas.FileSystemDisjoint
 import PrimaiteModel.Gen.FileSystemMethods
 namespace Primaite.FileSystem
 open Gen.FileSystemMethods
@@ -388,6 +389,159 @@ theorem C15_gen_copy_file (s : State) (F x G : Name) :
     cases hG : getFolder s G false with
     | some g => simp [hG, folderAddFile_forced, updFolder]
     | none => simp [hG, folderAddFile_forced, updFolder, C15_gen_create_folder]
+
+/-! ### `move_file` -/
+
+/-- The part of the translated `move_file` after the destination folder is known, exactly as the translation has it in both branches
+(`fsMoveFile_shape` is by `rfl`). After `src_folder.files.pop(...)` mutated an object of the file system, the translator reads every
+folder variable again from the state (a variable denotes the object of that uuid). -/
+def moveTail (s1 : State) (src? : Option Folder) (dst : Folder) (file : File) : State × Bool :=
+  if (dst.getFile file.name false).isSome then (s1, true)
+  else
+    match src? with
+    | none => (s1, false)
+    | some src =>
+      if !(src.files.any (fun y => y.id == file.id)) then (s1, false) else
+        let s := updFolder s1 src.id (fun g => { g with files := dictPop File.id g.files file.id })
+        let dst' := (findFolderById s dst.id).getD dst
+        let s := { s with numDeletions := s.numDeletions + 1 }
+        match folderAddFile dst' file false with
+        | none => (s, false)
+        | some _ =>
+          let s := updFolder s dst'.id (fun g => (folderAddFile g file false).getD g)
+          let s := { s with numCreations := s.numCreations + 1 }
+          (s, true)
+
+theorem fsMoveFile_shape (s : State) (F x G : Name) :
+    fsMoveFile s F x G =
+      match fsGetFile s F x false with
+      | some file =>
+        (match getFolder s G false with
+         | some dst => moveTail s (getFolder s F false) dst file
+         | none => moveTail (fsCreateFolder s G).1 (getFolder s F false) (fsCreateFolder s G).2 file)
+      | none => (s, true) := by
+  unfold fsMoveFile moveTail
+  rfl
+
+/-- The tail against the model: source and destination live folders of a state with `Inv`, the file live in the source, and — when
+the move happens — its uuid not already in the destination (`MoveFresh`). -/
+theorem moveTail_eq {s1 : State} (h1 : Inv s1) {src dst : Folder} {f : File} (hs : src ∈ s1.folders) (hd : dst ∈ s1.folders)
+    (hf : f ∈ src.files)
+    (hfresh : dst.getFile f.name = none → ∀ a, a ∈ dst.files ∨ a ∈ dst.deletedFiles → a.id ≠ f.id) :
+    moveTail s1 (some src) dst f =
+      if (dst.getFile f.name).isSome then (s1, true) else
+        ({ updFolder (updFolder s1 src.id (fun g => { g with files := dictPop File.id g.files f.id })) dst.id (fun g => g.addFile f) with
+            numDeletions := s1.numDeletions + 1, numCreations := s1.numCreations + 1 }, true) := by
+  unfold moveTail
+  by_cases hc : (dst.getFile f.name).isSome = true
+  · simp [hc]
+  · have hnone : dst.getFile f.name = none := by
+      cases hq : dst.getFile f.name with
+      | none => rfl
+      | some _ => rw [hq] at hc; simp at hc
+    have hany : src.files.any (fun y => y.id == f.id) = true := List.any_eq_true.mpr ⟨f, hf, by simp⟩
+    have hne : dst.id ≠ src.id := by
+      intro he
+      have : dst = src := folder_eq_of_id h1 hs (Or.inl hd) he
+      subst this
+      have := getFile_isSome_of_live hf
+      rw [hnone] at this; simp at this
+    -- in the state after the pop, the object with the destination's uuid is still `dst`
+    have hu2 : ∀ g0, g0 ∈ (updFolder s1 src.id (fun g => { g with files := dictPop File.id g.files f.id })).folders ∨
+        g0 ∈ (updFolder s1 src.id (fun g => { g with files := dictPop File.id g.files f.id })).deletedFolders → g0.id = dst.id → g0 = dst := by
+      intro g0 hg0 hid
+      unfold updFolder at hg0
+      simp only [List.mem_map] at hg0
+      rcases hg0 with ⟨y, hy, rfl⟩ | ⟨y, hy, rfl⟩
+      · by_cases hk : y.id = src.id
+        · simp only [hk, beq_self_eq_true, if_true] at hid
+          exact absurd hid.symm hne
+        · have hb : (y.id == src.id) = false := by simpa using hk
+          simp only [hb] at hid ⊢
+          exact folder_eq_of_id h1 hd (Or.inl hy) hid
+      · by_cases hk : y.id = src.id
+        · simp only [hk, beq_self_eq_true, if_true] at hid
+          exact absurd hid.symm hne
+        · have hb : (y.id == src.id) = false := by simpa using hk
+          simp only [hb] at hid ⊢
+          exact folder_eq_of_id h1 hd (Or.inr hy) hid
+    have hdst' : (findFolderById (updFolder s1 src.id (fun g => { g with files := dictPop File.id g.files f.id })) dst.id).getD dst = dst := by
+      cases hq : findFolderById (updFolder s1 src.id (fun g => { g with files := dictPop File.id g.files f.id })) dst.id with
+      | none => rfl
+      | some g0 =>
+        unfold findFolderById at hq
+        have hm := List.mem_of_find?_eq_some hq
+        have hi : g0.id = dst.id := by simpa using List.find?_some hq
+        simp only [Option.getD_some]
+        exact hu2 g0 (List.mem_append.mp hm) hi
+    have hadd : folderAddFile dst f false = some (dst.addFile f) := by
+      rw [C15_gen_add_file]
+      unfold Folder.addFileApi Folder.addFileForced
+      have hno : dst.files.any (fun y => y.id == f.id) = false := by
+        rw [Bool.eq_false_iff]
+        intro hc2
+        simp only [List.any_eq_true, beq_iff_eq] at hc2
+        obtain ⟨y, hy, hyi⟩ := hc2
+        exact hfresh hnone y (Or.inl hy) hyi
+      simp [hnone, hno]
+    simp only [hc, hany, Bool.not_true, Bool.false_eq_true, if_false, hdst', hadd]
+    rw [updFolder_congr_of
+      (s := { updFolder s1 src.id (fun g => { g with files := dictPop File.id g.files f.id }) with numDeletions :=
+        (updFolder s1 src.id (fun g => { g with files := dictPop File.id g.files f.id })).numDeletions + 1 })
+      hu2 (fun g => (folderAddFile g f false).getD g) (fun g => g.addFile f) (by simp [hadd])]
+    simp [updFolder]
+
+/-- **`FileSystem.move_file` as translated from the source is the model's `apiMoveFile`** (state; it does not raise), for every state
+with `Inv` and every move whose file is not already in the destination under its uuid (`MoveFresh`; in the implementation a `File`
+object sits in one folder only — `XDisj`, proved for every reachable state in Props/C15Disjoint.lean): no live source file → nothing; a
+live namesake in the destination (this includes a move within one folder) → nothing but the possibly created destination folder;
+otherwise the file leaves `src.files` altogether (not left among its deleted files), enters `dst.files` under the same uuid, one
+deletion and one creation are counted. -/
+theorem C15_gen_move_file {s : State} (h : Inv s) (F x G : Name) (hfresh : MoveFresh s F x G) :
+    (fsMoveFile s F x G).1 = (apiMoveFile s F x G).1 ∧ (fsMoveFile s F x G).2 = true := by
+  rw [fsMoveFile_shape, (C15_gen_get_file s F x false).2]
+  unfold apiMoveFile getFile
+  unfold MoveFresh getFile at hfresh
+  cases hsrc : getFolder s F false with
+  | none => exact ⟨rfl, rfl⟩
+  | some src =>
+    obtain ⟨hsm, _⟩ := getFolder_live hsrc
+    have hsrc' : getFolder s F = some src := hsrc
+    simp only [hsrc'] at hfresh ⊢
+    cases hfx : src.getFile x false with
+    | none => exact ⟨rfl, rfl⟩
+    | some f =>
+      have hfx' : src.getFile x = some f := hfx
+      obtain ⟨hfm, _⟩ := getFile_live hfx'
+      have hfr := hfresh f hfx'
+      simp only [hfx']
+      unfold getOrCreateFolder at hfr ⊢
+      cases hG : getFolder s G false with
+      | some dst =>
+        have hG' : getFolder s G = some dst := hG
+        obtain ⟨hdm, _⟩ := getFolder_live hG
+        simp only [hG'] at hfr ⊢
+        rw [moveTail_eq h hsm hdm hfm hfr]
+        by_cases hc : (dst.getFile f.name).isSome = true <;> simp [hc, updFolder]
+      | none =>
+        have hG' : getFolder s G = none := hG
+        simp only [hG', C15_gen_create_folder] at hfr ⊢
+        obtain ⟨hI, hm, _, _⟩ := createFolder_spec h G
+        have hsm' : src ∈ (createFolder s G).1.folders := by
+          rw [createFolder_eq, hG']
+          simp only
+          refine (mem_dictSet Folder.id).mpr (Or.inr ⟨hsm, ?_⟩)
+          have := (h.folder src (Or.inl hsm)).2.2
+          rw [(setDur_fields s _).1]
+          simp only; omega
+        rw [moveTail_eq hI hsm' hm hfm hfr]
+        by_cases hc : ((createFolder s G).2.getFile f.name).isSome = true <;> simp [hc, updFolder]
+
+/-- In every state with `Inv` and `XDisj` (every state reachable by requests, ticks and API calls: `C15_any_inv_reachable_full`, Props/C15Disjoint.lean) the translated
+`move_file` is the model's, without side condition. -/
+theorem C15_gen_move_file_of_xdisj {s : State} (h : Inv s) (hx : XDisj s) (F x G : Name) :
+    (fsMoveFile s F x G).1 = (apiMoveFile s F x G).1 ∧ (fsMoveFile s F x G).2 = true :=
+  C15_gen_move_file h F x G (moveFresh_of_xdisj h hx F x G)
 
 /-! ### the counter resets -/
 
